@@ -4172,6 +4172,22 @@ class _SubTensorDict(TensorDictBase):
             names=self.names if self._has_names() else None,
         )
 
+    def _to_tensordict_view(self) -> TensorDict:
+        # A regular TensorDict whose entries are the entries of this sub-tensordict
+        # (views of the source entries for basic indices). Unlike to_tensordict(),
+        # nothing is cloned: select / exclude must share memory with the source.
+        source = {}
+        for key, value in self.items():
+            if isinstance(value, _SubTensorDict):
+                value = value._to_tensordict_view()
+            source[key] = value
+        return TensorDict._new_unsafe(
+            source=source,
+            batch_size=self.batch_size,
+            device=self.device,
+            names=self._maybe_names(),
+        )
+
     def _select(
         self,
         *keys: NestedKey,
@@ -4181,7 +4197,7 @@ class _SubTensorDict(TensorDictBase):
     ) -> T:
         if inplace:
             raise RuntimeError("Cannot call select inplace on a lazy tensordict.")
-        return self.to_tensordict()._select(
+        return self._to_tensordict_view()._select(
             *keys, inplace=False, strict=strict, set_shared=set_shared
         )
 
@@ -4190,7 +4206,7 @@ class _SubTensorDict(TensorDictBase):
     ) -> T:
         if inplace:
             raise RuntimeError("Cannot call exclude inplace on a lazy tensordict.")
-        return self.to_tensordict()._exclude(
+        return self._to_tensordict_view()._exclude(
             *keys, inplace=False, set_shared=set_shared
         )
 
